@@ -225,6 +225,8 @@ def has_goto(f=None):
 
 
 # ------------------------------------------------------------ expression text
+SHOW_TARGS = False      # the guard / effect / return tables (gguard) spell template arguments of sbeppc's own templates
+
 _locals_cache = {}
 
 
@@ -284,7 +286,7 @@ def expr_text(n, depth=0, fn=None):
     if k in ("CallExpr", "CXXMemberCallExpr", "CXXOperatorCallExpr"):
         c = n.get("callee") or {}
         nm = c.get("name") or ((n.get("fnexpr") or {}).get("name")) or "?"
-        if c.get("targs") and "/sbeppc/" in (c.get("file") or "") and k != "CXXOperatorCallExpr":
+        if SHOW_TARGS and c.get("targs") and "/sbeppc/" in (c.get("file") or "") and k != "CXXOperatorCallExpr":
             # explicit/deduced template arguments of sbeppc's own function templates are part of what is called
             # (can_be_parsed_as<std::int8_t> vs <std::uint8_t>)
             nm += "<%s>" % ",".join(str(a).replace("sbepp::sbeppc::", "") for a in c["targs"])
